@@ -301,6 +301,14 @@ func (idx *IVFPQIndex) Add(vector VectorNode) error {
 	}
 
 	// Find nearest IVF centroid
+	// Re-adding an ID that is still soft-deleted (update = remove + add): purge the
+	// pending deletions first, otherwise the stale mark would hide the new vector.
+	if idx.deletedNodes.Contains(vector.ID()) {
+		if err := idx.flushLocked(); err != nil {
+			return err
+		}
+	}
+
 	listIdx := FindNearestCentroidIndex(vector.Vector(), idx.centroids, idx.distance)
 
 	// Compute residual = vector - centroid
@@ -405,6 +413,12 @@ func (idx *IVFPQIndex) Remove(vector VectorNode) error {
 func (idx *IVFPQIndex) Flush() error {
 	idx.mu.Lock()
 	defer idx.mu.Unlock()
+
+	return idx.flushLocked()
+}
+
+// flushLocked is Flush without locking. The caller MUST hold the write lock.
+func (idx *IVFPQIndex) flushLocked() error {
 
 	// Quick exit if nothing to flush
 	deletedCount := int(idx.deletedNodes.GetCardinality())
